@@ -72,6 +72,17 @@ CLAIMED = {
             "files omit only the 2.2 options, and that the time-string helpers are inverse.",
             "Does not decide text formatting precision, idempotence of a second cycle, write guards relying on EPANET defaults, nor models the "
             "API can build that INP cannot express. [REPORT]/[BACKDROP]/[LABELS] are outside the statement.", "DESIGN.md §4 C12"),
+    "C13": ("serializer/deserializer agreement over tables extracted from the AST: keys the generic to_dict can emit are derived from the class "
+            "table (properties, setters, exclusion lists, API writers of backing fields) and joined with the keys each from_dict branch reads and "
+            "the attribute each lands in (through add_* signatures and registry assignments); tuple-only setter tests vs conversions; control "
+            "text token layouts (format strings vs token indices); enum __str__ images vs accepted strings; options constructor keywords",
+            "Decides that every API-settable key to_dict emits for junctions, tanks, reservoirs, pipes, pumps, valves, patterns, curves, sources "
+            "and demand entries is read back by from_dict into the attribute of the same name, that JSON lists are converted where a setter "
+            "insists on tuples, that leak-action lines of every leak-capable node kind are read as node actions, that control text is re-read "
+            "in SI, that each options class accepts exactly its own keys, and that enum-valued keys are emitted as strings their consumer accepts.",
+            "Does not decide value equality of arbitrary models. Eight known findings: simple controls are re-read through EPANET's [CONTROLS] "
+            "grammar, which drops the relation / attribute tokens (>=, <=, =, <>, HEAD, FLOW, SETTING...). Rule conditions outside EPANET's rule "
+            "grammar are not analysed.", "DESIGN.md §4 C13"),
     "C14": ("registry-invariant analysis over the AST: add_usage/remove_usage pairing tables, typed-subset add/discard set comparison, "
             "statement-order (must-precede) rules in __delitem__, view-accessor resolution",
             "Decides, for every mutating registry operation, that it preserves the invariant 'all views agree' (usage pairing per registry and tag, "
